@@ -17,6 +17,7 @@ CONSTANTS PUs, Nodes, NodeCpus,
           MaxSteps, TwoSlots, NStripes, Stripe, SimLen,
           Lean,            \* TRUE: fewer argument combinations of the argument-heavy calls (allow, dist_add, group) - quick tier with two topologies
           Ops,             \* the calls this configuration uses (focused configurations explore fewer calls deeper)
+          ShapePUs,        \* per distances shape (argument of dist_add): the sequence of PU sets of the objects of the matrix
           Tops             \* sequence of PU sets: the PUs below each child of the root (which restricts leave a single subtree, i.e. may merge levels)
 VARIABLES pus, nodes, live, steps, hist,
           sig              \* signature of the history: per call <<name, slot, class>>; it is the part of the history the view keeps
@@ -40,21 +41,35 @@ Outcome(s, f, k) ==
 
 \* class of a call: what of its arguments shapes the tree or the stores (the rest of the arguments is abstracted by the view)
 \*   insert_misc: the parent; cpukind: with infos or not; cpukind_info: which kind and which edit;
-\*   restrict: -1 when refused, else the number of subtrees below the root that keep a PU (1 = the levels below the root may merge)
+\*   restrict: -1 when refused, else the number of subtrees below the root that keep a PU (1 = the levels below the root may merge),
+\*             + 10 when by nodeset, + 100 * what it does to the distances structure added last (DistCut)
+\*   dist_add: 1 when the kind and flag words are legal (a structure is really added)
 Class(op) == CASE op[1] = "insert_misc" -> op[3]
+               [] op[1] = "dist_add" -> IF op[3] \in {5, 6, 9, 10} /\ op[4] \in {0, 1, 2, 3} THEN 1 ELSE 0
                [] op[1] = "cpukind" -> op[5]
                [] op[1] = "cpukind_info" -> 2 * op[3] + op[4]
                [] OTHER -> 0
 StepC(op, c) == /\ steps < MaxSteps /\ steps' = steps + 1 /\ hist' = Append(hist, op) /\ sig' = Append(sig, <<op[1], op[2], c>>)
 Step(op) == StepC(op, Class(op))
 Survivors(P) == Cardinality({i \in DOMAIN Tops : Tops[i] \cap P # {}})
+\* what a restrict that leaves the PUs P does to the distances structure added last on slot s (C13: distances follow the objects):
+\* 0 = none or untouched, 1 = some objects go and at least 2 stay (the sub-matrix must be kept), 2 = fewer than 2 stay (dropped)
+RECURSIVE LastShape(_, _)
+LastShape(s, k) == IF k = 0 THEN 0
+                   ELSE IF hist[k][1] = "dist_add" /\ hist[k][2] = s /\ Class(hist[k]) = 1 THEN hist[k][5]
+                   ELSE IF hist[k][1] = "dist_remove" /\ hist[k][2] = s THEN 0
+                   ELSE LastShape(s, k - 1)
+DistCut(s, P) == LET sh == LastShape(s, Len(hist)) IN
+             IF sh = 0 THEN 0
+             ELSE LET alive == Cardinality({i \in DOMAIN ShapePUs[sh] : ShapePUs[sh][i] \cap P # {}}) IN
+                  IF alive = Len(ShapePUs[sh]) THEN 0 ELSE IF alive >= 2 THEN 1 ELSE 2
 
 Restrict == \E s \in Slots, f \in RestrictFlags, k \in DOMAIN SetChoices :
               /\ "restrict" \in Ops
               /\ live[s]
               /\ LET o == Outcome(s, f, k) IN
                    /\ pus' = [pus EXCEPT ![s] = o[2]] /\ nodes' = [nodes EXCEPT ![s] = o[3]]
-                   /\ StepC(<<"restrict", s, f, k, o[1]>>, IF o[1] = -1 THEN -1 ELSE Survivors(o[2]) + (IF Bit(f, R_BYNODESET) THEN 10 ELSE 0))
+                   /\ StepC(<<"restrict", s, f, k, o[1]>>, IF o[1] = -1 THEN -1 ELSE Survivors(o[2]) + (IF Bit(f, R_BYNODESET) THEN 10 ELSE 0) + 100 * DistCut(s, o[2]))
               /\ UNCHANGED live
 
 \* calls that do not change the resources
